@@ -201,6 +201,20 @@ theorem C18_reschedule_replaces (s : Sh) (i due : Nat) (kind : Kind) (tag : Nat)
       rw [hadd] at hok; simp only at hok; subst hok
       simp
 
+/-- **ExecuteAfter is ExecuteAt at `now + delay`.** `Executor.ExecuteAfter` / `TaskExecutor.ExecuteAfter` are
+`ExecuteAt` with the due time "clock at the call + delay"; everything above therefore holds for them
+with that due time, in particular a task given with a delay never starts before call time + delay
+(`C18_never_early_run`: the `sched` event carries `clock + delay`). -/
+theorem C18_after_is_at (s : Sh) (delay : Nat) (id : Option Nat) (kind : Kind) (tag : Nat) :
+    addAfter s delay id kind tag = add s (s.clock + delay) id kind tag ∧
+    (s.isShutdown = false →
+      (addAfter s delay id kind tag).1.log.any (fun ev => ev == .sched s.next id (s.clock + delay)) = true) := by
+  refine ⟨rfl, fun h => ?_⟩
+  unfold addAfter
+  rcases add_cases s (s.clock + delay) id kind tag with ⟨hs, _, _⟩ | ⟨_, _, h2, new, cl, h1, _⟩
+  · rw [h] at hs; cases hs
+  · rw [h1]; simp
+
 /-- The full statement of "Cancel(id) returns true only when it prevents a pending task": a
 registered task with an open cancel channel is live (in the heap, with a poller, or delivered and
 about to start). -/
